@@ -189,12 +189,14 @@ func dischargePanic(c *an.Ctx, ps an.PanicSite) (bool, string) {
 		case "Call":
 			// guarded by NumIn() == 0 on its Type
 			for _, g := range an.GuardsOf(blk) {
-				if b, ok := g.Cond.(*ssa.BinOp); ok && g.True && b.Op == token.EQL {
-					if call, ok := b.X.(*ssa.Call); ok && call.Common().IsInvoke() && call.Common().Method.Name() == "NumIn" {
-						if k, isC := an.ConstInt(b.Y); isC && k == 0 {
-							return true, why + "; NumIn() == 0 so Call(nil) supplies the right number of arguments"
-						}
-					}
+				if cmp, ok := an.CmpOf(g); ok && cmp.Is(token.EQL, func(v ssa.Value) bool {
+					call, ok := v.(*ssa.Call)
+					return ok && call.Common().IsInvoke() && call.Common().Method.Name() == "NumIn"
+				}, func(v ssa.Value) bool {
+					k, isC := an.ConstInt(v)
+					return isC && k == 0
+				}) {
+					return true, why + "; NumIn() == 0 so Call(nil) supplies the right number of arguments"
 				}
 			}
 			return false, ""
